@@ -1,5 +1,6 @@
 """C14 - HTTP requests built by the client are recovered exactly by the server (DESIGN 2.C14)."""
 import ast
+from ..loader import _clone
 
 from ..core import Mutant, norm
 from ..httpx import HT, HS, HC
@@ -47,7 +48,7 @@ class _Alpha(ast.NodeTransformer):
 def alpha(node, ren):
     """copy of node with locals renamed to role names (K, V, E): comparisons are made on roles, not spellings"""
     import copy
-    return ast.fix_missing_locations(_Alpha(ren).visit(copy.deepcopy(node)))
+    return ast.fix_missing_locations(_Alpha(ren).visit(_clone(node)))
 
 
 def check(run):
